@@ -3,7 +3,7 @@
 Each row names a function, a target (assignment / struct field / let / return value / constant)
 and the pattern the value must have.  Rows are grouped by property."""
 import hirutil as H
-from hp import (unique_inits, PARAM_TY, RET, INDEX, BREAK, ASSIGNOP as _ASSIGNOP, CALLARG, CLAMP, Ctx, ANY, K, L, F, M, C, BIN, UN, CAST, TRY, P, VIA, OR, IF, CONTAINS, find, assignments,
+from hp import (Pat, canon, unique_inits, PARAM_TY, RET, INDEX, BREAK, ASSIGNOP as _ASSIGNOP, CALLARG, CLAMP, Ctx, ANY, K, L, F, M, C, BIN, UN, CAST, TRY, P, VIA, OR, IF, CONTAINS, find, assignments,
                 struct_field_inits, strip)
 from facts import callee_of, op_local
 from common import loc_of
@@ -1527,7 +1527,7 @@ row('C19', CURVE + 'position_at', 'raw-progress-only-clamped',
 row('C19', CURVE + 'progress_to_dist', 'raw-progress-only-clamped',
     _raw_param_only_through(1, [lambda p: CLAMP(p, K(0.0), K(1.0))], 'clamp(0, 1)'))
 IV = CURVE + 'interpolate_vertices'
-def _interp_table(ctx, hfn):
+def _interp_table(ctx, hfn, parts_only=None):
     """interpolate_vertices(path, lengths, i, d) as a decision table (symbolic evaluation; early returns, an if/else
     chain or a segment helper give the same tree):
       empty path -> default;  i == 0 -> path[0];  i beyond the path -> the last vertex;
@@ -1535,18 +1535,21 @@ def _interp_table(ctx, hfn):
       else path[i-1] + (path[i] - path[i-1]) * ((d - lengths[i-1]) / (lengths[i] - lengths[i-1])) as f32"""
     import symeval as SE
     import itertools
-    ps = [H.pat_bindings(p_)[0] for p_ in hfn.get('params', []) if H.pat_bindings(p_)]
-    if len(ps) != 4:
-        return False, 'unexpected signature of the interpolation function', None
-    PATH, LENS, I, D = (L(x) for x in ps)
-    ev = SE.SymEval(None, budget=8000)
-    body = hfn['body']
-    try:
-        tree = ev.seq(list(body.get('stmts', [])), body.get('expr'), {},
-                      lambda env, tail: ev.value(tail, env) if tail is not None else ('v', {'k': 'unit'}),
-                      kret=lambda vt, env=None: vt)
-    except SE.Stop:
-        return False, 'function too large to evaluate symbolically', None
+    if parts_only:
+        PATH, LENS, I, D = parts_only
+    else:
+        ps = [H.pat_bindings(p_)[0] for p_ in hfn.get('params', []) if H.pat_bindings(p_)]
+        if len(ps) != 4:
+            return False, 'unexpected signature of the interpolation function', None
+        PATH, LENS, I, D = (L(x) for x in ps)
+        ev = SE.SymEval(None, budget=8000)
+        body = hfn['body']
+        try:
+            tree = ev.seq(list(body.get('stmts', [])), body.get('expr'), {},
+                          lambda env, tail: ev.value(tail, env) if tail is not None else ('v', {'k': 'unit'}),
+                          kret=lambda vt, env=None: vt)
+        except SE.Stop:
+            return False, 'function too large to evaluate symbolically', None
     P0 = INDEX(PATH, BIN('Sub', I, K(1)))
     D0 = INDEX(LENS, BIN('Sub', I, K(1)))
     D1 = INDEX(LENS, I)
@@ -1597,7 +1600,7 @@ def _interp_table(ctx, hfn):
                 return None
             t = t[2] if val[cl[0]] == cl[1] else t[3]
         return t[1]
-    want = [
+    want = want_rows = [
         ({'empty': True}, C('default'), 'an empty path gives the default position'),
         ({'empty': False, 'i0': True}, INDEX(PATH, K(0)), 'index 0 gives the first vertex'),
         ({'empty': False, 'i0': False, 'some': False}, INDEX(PATH, BIN('Sub', M('len', PATH), K(1))), 'an index beyond the path gives the last vertex'),
@@ -1605,6 +1608,8 @@ def _interp_table(ctx, hfn):
         ({'empty': False, 'i0': False, 'some': True, 'zero': False}, lerp,
          'otherwise the position is p0 + (p1 - p0) * ((d - d0) / (d1 - d0))'),
     ]
+    if parts_only:
+        return classify, want_rows
     for fixed, pat, what in want:
         free = [k_ for k_ in ('empty', 'i0', 'some', 'zero') if k_ not in fixed]
         for bits in itertools.product((True, False), repeat=len(free)):
@@ -1666,6 +1671,79 @@ def _interp_row(label):
 
 for _lbl in ('zero-length-segment-guard', 'weight', 'lerp', 'segment', 'segment-lengths:d0', 'segment-lengths:d1'):
     row('C19', IV, _lbl, _interp_row(_lbl))
+
+
+class SAME(Pat):
+    """the very expression `e` (after symbolic substitution): structural equality without positions/types"""
+
+    def __init__(self, e):
+        self.c = canon(strip(e))
+
+    def m0(self, ctx, e):
+        return canon(strip(e)) == self.c
+
+
+def _position_is_interpolation(ctx, hfn):
+    """position_at(path, lengths, progress), as a decision tree: every path ends in the interpolation
+    interpolate(path, lengths, idx(lengths, d), d) -- the function whose table the rows above decide -- or, where it
+    answers itself, in exactly what that table prescribes under the conditions tested on the way (a shortcut
+    `if path.is_empty() { return Pos::default() }` is the table's first row; a shortcut under any other test is not the
+    position the interpolation would give)."""
+    import symeval as SE
+    import itertools
+    facts = ctx.facts
+    ev = SE.SymEval(None, budget=8000)
+    body = hfn['body']
+    try:
+        tree = ev.seq(list(body.get('stmts', [])), body.get('expr'), {},
+                      lambda env, tail: ev.value(tail, env) if tail is not None else ('v', {'k': 'unit'}),
+                      kret=lambda vt, env=None: vt)
+    except SE.Stop:
+        return False, 'function too large to evaluate symbolically', None
+    lv = SE.leaves(tree)
+    pnames = [H.pat_bindings(p_)[0] for p_ in hfn.get('params', []) if H.pat_bindings(p_)]
+
+    def interp_call(leaf):
+        e = strip(leaf)
+        if isinstance(e, dict) and e.get('k') == 'call' and e['f'].get('k') == 'path' and len(e.get('args', [])) == 4:
+            d = e['f'].get('def')
+            if d == IV or (d and dict.__contains__(facts.hir, d) and
+                           _interp_table(Ctx(facts, H.binding_inits(facts.hir[d]), facts.hir[d]), facts.hir[d])[0]):
+                return e['args']
+        return None
+    calls = [(pc, interp_call(leaf)) for pc, leaf in lv]
+    found = [a for _, a in calls if a is not None]
+    if not found:
+        return True, 'not determined here: no path ends in a call of the interpolation (inlined or restructured)', None
+    a0 = found[0]
+    for a in found:
+        if [canon(strip(x)) for x in a] != [canon(strip(x)) for x in a0]:
+            return False, 'the interpolation is called with different arguments on different paths', None
+    for j, what in ((0, 'path'), (1, 'lengths')):
+        x = strip(a0[j])
+        while isinstance(x, dict) and x.get('k') in ('addr', 'unary'):
+            x = strip(x['e'])
+        if not (isinstance(x, dict) and x.get('k') == 'local' and x.get('name') in pnames):
+            return False, 'the interpolation is not given the %s of the curve' % what, None
+    classify, want = _interp_table(ctx, hfn, parts_only=(SAME(a0[0]), SAME(a0[1]), SAME(a0[2]), SAME(a0[3])))
+    for (pc, leaf), (_, a) in zip(lv, calls):
+        if a is not None:
+            continue
+        known = {}
+        for c, pol in pc:
+            cl = classify(c)
+            if cl is not None:
+                known[cl[0]] = (cl[1] == pol)
+        rows_ = [(fx, pat, what) for fx, pat, what in want if all(known.get(k_, v_) == v_ for k_, v_ in fx.items())]
+        bad = [what for fx, pat, what in rows_ if not pat.m(ctx, leaf)]
+        if bad:
+            ln = leaf.get('ln') if isinstance(leaf, dict) else None
+            return False, ('a path answers without the interpolation although the tests on it do not establish that answer (%s)'
+                           % bad[0]), ln
+    return True, '', None
+
+
+row('C19', CURVE + 'position_at', 'every-path-is-the-interpolation', _position_is_interpolation)
 CLEN = CURVE + 'calculate_length'
 
 
@@ -1930,13 +2008,73 @@ SPANP = PARAM_TY('i32')      # the span index handed to generate_ticks (whatever
 row('C20', GENT, 'reversed', _let('reversed', BIN('Eq', BIN('Rem', SPANP, K(2)), K(1))))
 row('C20', GENT, 'span_start_time', _let('span_start_time', SPAN_START(SPANP)))
 row('C20', GENT, 'with_repeat', _let('with_repeat', BIN('Lt', SPANP, BIN('Sub', F(ANY(), 'span_count'), K(1)))))
-row('C20', GENT, 'first-tick-distance', _let('d', F(ANY(), 'tick_dist')))
-row('C20', GENT, 'tick-step', _contains(_ASSIGNOP('AddAssign', L('d'), F(ANY(), 'tick_dist')),
-                                        'ticks advance by the tick distance (`d += tick_dist`)'))
-row('C20', GENT, 'ticks-up-to-length', _contains(IF(BIN('Le', L('d'), F(ANY(), 'len')), ANY()), 'tick loop runs while d <= len'))
-row('C20', GENT, 'min-distance-from-end',
-    _contains(IF(BIN('Ge', L('d'), BIN('Sub', F(ANY(), 'len'), F(ANY(), 'min_dist_from_end'))), CONTAINS(BREAK())),
-              'no tick within min_dist_from_end of the span end (`d >= len - min_dist_from_end` ends the span)'))
+# the tick distances of a span: tick_dist, 2*tick_dist, .. (by repeated addition) while d <= len and d is not within
+# min_dist_from_end of the end -- as a `while` loop with a `break`, or as `successors(..).take_while(..)`
+_TD = OR(F(ANY(), 'tick_dist'), L('tick_dist'))
+_LEN = OR(F(ANY(), 'len'), L('len'))
+_MINEND = OR(F(ANY(), 'min_dist_from_end'), L('min_dist_from_end'))
+
+
+def _either(pat_loop, pat_iter, what):
+    def chk(ctx, hfn):
+        for pat in (pat_loop, pat_iter):
+            if find(ctx, hfn['body'], pat):
+                return True, '', None
+        return False, '%s not found (neither as a loop nor as an iterator pipeline)' % what, None
+    chk.positive = True
+    return chk
+
+
+def _first_tick(ctx, hfn):
+    r = _let('d', F(ANY(), 'tick_dist'))(ctx, hfn)
+    if r[0]:
+        return r
+    if find(ctx, hfn['body'], C('successors', C('Some', _TD), ANY())):
+        return True, '', None
+    return r
+
+
+_first_tick.positive = True
+row('C20', GENT, 'first-tick-distance', _first_tick)
+row('C20', GENT, 'tick-step',
+    _either(_ASSIGNOP('AddAssign', L('d'), F(ANY(), 'tick_dist')),
+            C('successors', ANY(), CONTAINS(C('Some', BIN('Add', ANY(), _TD, commutative=True)))),
+            'ticks advance by the tick distance (`d += tick_dist`)'))
+row('C20', GENT, 'ticks-up-to-length',
+    _either(IF(BIN('Le', L('d'), F(ANY(), 'len')), ANY()),
+            M('take_while', ANY(), CONTAINS(BIN('Le', ANY(), _LEN))),
+            'tick loop runs while d <= len'))
+def _min_dist_from_end(ctx, hfn):
+    """no tick within min_dist_from_end of the span end: `d >= len - min_dist_from_end` ends the span's ticks (a `break`
+    in the loop form, a negated `take_while` condition in the iterator form)"""
+    if find(ctx, hfn['body'], IF(BIN('Ge', L('d'), BIN('Sub', F(ANY(), 'len'), F(ANY(), 'min_dist_from_end'))), CONTAINS(BREAK()))):
+        return True, '', None
+    too_close = BIN('Ge', ANY(), BIN('Sub', _LEN, _MINEND))
+    tw = find(ctx, hfn['body'], M('take_while', ANY(), CONTAINS(UN('Not', ANY()))))
+    if tw and find(ctx, hfn['body'], too_close):
+        # the negated test of the take_while is that comparison (directly or through a local closure)
+        for n, _a in tw:
+            cl = strip(strip(n)['args'][0])
+            body = strip(cl['body']) if isinstance(cl, dict) and cl.get('k') == 'closure' else None
+            if body is None:
+                continue
+            nots = []
+            H.walk(body, lambda x, anc: nots.append(x) if x.get('k') == 'unary' and x.get('op') == 'Not' else None)
+            for nt in nots:
+                inner = strip(nt['e'])
+                if too_close.m(ctx, inner):
+                    return True, '', None
+                if isinstance(inner, dict) and inner.get('k') == 'call' and strip(inner['f']).get('k') == 'local':
+                    for i in ctx.inits.get(strip(inner['f'])['name'], []):
+                        i2 = strip(i)
+                        if isinstance(i2, dict) and i2.get('k') == 'closure' and too_close.m(ctx, strip(i2['body'])):
+                            return True, '', None
+    return False, ('no tick within min_dist_from_end of the span end (`d >= len - min_dist_from_end` ends the span) not found '
+                   '(neither as a loop nor as an iterator pipeline)'), None
+
+
+_min_dist_from_end.positive = True
+row('C20', GENT, 'min-distance-from-end', _min_dist_from_end)
 row('C20', GENT, 'tick:path_progress', _let('path_progress', BIN('Div', L('d'), F(ANY(), 'len'))))
 row('C20', GENT, 'tick:time-mirrored-on-reversed-spans',
     _let('time_progres', IF(L('reversed'), BIN('Sub', K(1.0), L('path_progress')), L('path_progress'))))
